@@ -100,9 +100,47 @@ static void setup(Runner &r, const Tier &t) {
         ctl.cls(hash_str(rt.font) * 7 + rt.opts * 4 + rt.hinted * 2 + plain);
     };
 }
+
+// ---- text-pair histories: one history step (shape text t1 / ask whether c1 is supported), then ONE probe (shape t2, is c2 supported), for EVERY ordered pair
+// over a text set built to make coarse internal keys collide: base characters of the font, its pseudo-glyph characters, an unsupported character, and for each of
+// them the code points c+1 (same 256-block), c+0x100 (same low byte), c+0x10000 (same low 16 bits)
+struct PRoot { std::string font; unsigned opts; std::vector<uint32_t> base; int dir; };
+static std::vector<PRoot> g_proots; static std::vector<std::vector<uint32_t>> g_pcps;
+static std::string utf8_of(const std::vector<uint32_t> &cps) { std::vector<uint8_t> b; for (uint32_t c : cps) ref::enc8(c, b); return std::string(b.begin(), b.end()); }
+static void setup_pairs(Runner &r, const Tier &t) {
+    g_proots.clear(); g_pcps.clear();
+    struct FS { std::string f; std::vector<uint32_t> base; int dir; };
+    std::vector<FS> fs = { { gen_dir() + "/s_full.ttf", { 0x61, 0x62, 0x301 }, 0 }, { font_path("Awami_test.ttf"), { 0x628, 0x6CC, 0x200C }, 1 }, { font_path("small.ttf"), { 0x61, 0x62 }, 0 } };
+    if (t.thorough) { fs.push_back({ font_path("Padauk.ttf"), { 0x1000, 0x103B, 0x200B }, 0 }); fs.push_back({ font_path("charis_r_gr.ttf"), { 0x61, 0x66, 0x301 }, 0 }); fs.push_back({ font_path("Scheherazadegr.ttf"), { 0x628, 0x633, 0x200D }, 1 }); }
+    for (auto &f : fs) for (unsigned o : { 0u, 6u }) { PRoot pr{ f.f, o, f.base, f.dir };
+        std::vector<uint32_t> cps = f.base; { TableSet ts; if (ts.from_file(f.f)) { MemFace mf; mf.ts = &ts; gr_face *face = mf.make(0); if (face) { const graphite2::Face *F = static_cast<const graphite2::Face*>(face);
+            for (unsigned si = 0; si < F->m_numSilf; ++si) for (unsigned k = 0; k < F->m_silfs[si].m_numPseudo && k < 4; ++k) cps.push_back(F->m_silfs[si].m_pseudos[k].uid); gr_face_destroy(face); } } }
+        cps.push_back(0x3000); std::vector<uint32_t> all; for (uint32_t c : cps) for (uint32_t d : { 0u, 1u, 0x100u, 0x10000u }) { uint32_t v = c + d; if (std::find(all.begin(), all.end(), v) == all.end()) all.push_back(v); }
+        g_proots.push_back(pr); g_pcps.push_back(all); }
+    r.ncases = 0; for (auto &c : g_pcps) r.ncases += c.size(); r.case_alarm_s = 600;
+    r.describe = [](uint64_t i) { size_t ri = 0; while (i >= g_pcps[ri].size()) { i -= g_pcps[ri].size(); ++ri; } const PRoot &pr = g_proots[ri]; char b[16]; snprintf(b, sizeof b, "U+%04X", g_pcps[ri][i]); JObj o; o.kv("font", pr.font).kv("face_options", pr.opts).kv("history_character", b)
+        .kv("histories", "shape [base, c1, base] in dir 0/1, or gr_face_is_char_supported(c1)").kv("probes", "each of the " + std::to_string(g_pcps[ri].size()) + " characters c2: shape [base, c2, base] x dir {0,1} and gr_face_is_char_supported(c2), each on its own face after the one history step"); return o; };
+    r.body = [](uint64_t ci, ShardCtl &ctl) {
+        size_t ri = 0; uint64_t i = ci; while (i >= g_pcps[ri].size()) { i -= g_pcps[ri].size(); ++ri; } const PRoot &pr = g_proots[ri]; const std::vector<uint32_t> &cps = g_pcps[ri]; uint32_t c1 = cps[i];
+        TableSet ts; if (!ts.from_file(pr.font)) return; uint32_t b0 = pr.base[0];
+        auto text = [&](uint32_t c) { return utf8_of({ b0, c, b0 }); };
+        auto probe = [&](gr_face *face, uint32_t c2, int pk) -> std::string { if (pk == 2) return std::to_string(gr_face_is_char_supported(face, c2, 0)); std::string tx = text(c2); gr_segment *s = gr_make_seg(nullptr, face, 0, nullptr, gr_utf8, tx.c_str(), 3, pk ^ pr.dir); SegDumpOpts o; o.face = face; std::string d = dump_segment(s, o); if (s) gr_seg_destroy(s); return d; };
+        // fresh references: probe on a new face
+        std::vector<std::string> fresh; for (uint32_t c2 : cps) for (int pk = 0; pk < 3; ++pk) { TableSet t2 = ts; MemFace mf; mf.ts = &t2; gr_face *face = mf.make(pr.opts); if (!face) return; fresh.push_back(probe(face, c2, pk)); gr_face_destroy(face); }
+        for (int hk = 0; hk < 3; ++hk) { size_t fi = 0; for (uint32_t c2 : cps) for (int pk = 0; pk < 3; ++pk, ++fi) { if ((fi & 15) == 0 && deadline_hit(ctl)) return;
+            TableSet t2 = ts; MemFace mf; mf.ts = &t2; gr_face *face = mf.make(pr.opts); if (!face) return;
+            if (hk == 2) { volatile int r = gr_face_is_char_supported(face, c1, 0); (void)r; } else { std::string tx = text(c1); gr_segment *s = gr_make_seg(nullptr, face, 0, nullptr, gr_utf8, tx.c_str(), 3, hk ^ pr.dir); if (s) gr_seg_destroy(s); }
+            std::string got = probe(face, c2, pk); gr_face_destroy(face); ctl.counters[0] = ctl.counters[0] + 1; ctl.counters[1] = ctl.counters[1] + 2;
+            if (got != fresh[fi]) { size_t p = 0; const std::string &want = fresh[fi]; while (p < got.size() && p < want.size() && got[p] == want[p]) ++p; char h[64], q[64]; snprintf(h, sizeof h, "%s U+%04X", hk == 2 ? "is_char_supported" : hk == 1 ? "shape(dir^1) base," : "shape base,", c1); snprintf(q, sizeof q, "%s U+%04X", pk == 2 ? "is_char_supported" : pk == 1 ? "shape(dir^1) base," : "shape base,", c2);
+                JObj o; o.kv("font", pr.font).kv("face_options", pr.opts).kv("kind", "history_dependence").kv("history", h).kv("probe", q).kv("first_difference", want.substr(p > 80 ? p - 80 : 0, 200) + " <> " + got.substr(p > 80 ? p - 80 : 0, 200)); report_fail(ci, o); return; } } }
+        ctl.cls(hash_str(pr.font) * 31 + pr.opts * 1000003 + c1);
+    };
+}
+static void extra_p(const Runner &r, JObj &o) { o.kv("states", (unsigned long long)r.counters[0]).kv("transitions", (unsigned long long)r.counters[1]).kv("validated", (unsigned long long)r.counters[0]); }
 static void extra(const Runner &r, JObj &o) { o.kv("states", (unsigned long long)r.counters[0]).kv("transitions", (unsigned long long)r.counters[1]).kv("validated", (unsigned long long)r.counters[0]).kv("bfs_roots_reaching_fixpoint", (unsigned long long)r.counters[2]); }
 int main(int argc, char **argv) {
     std::vector<Sub> subs;
     { Sub s; s.name = "history_search"; s.setup = setup; s.budget_quick = 140; s.budget_thorough = 1100; s.counter_names = { "states_probed", "operations_replayed", "bfs_roots_reaching_fixpoint" }; s.extra = extra; subs.push_back(s); }
+    { Sub s; s.name = "text_pair_histories"; s.setup = setup_pairs; s.budget_quick = 100; s.budget_thorough = 600; s.counter_names = { "history_probe_pairs", "operations" }; s.extra = extra_p; subs.push_back(s); }
     return check_main(argc, argv, "C08", subs);
 }
